@@ -318,6 +318,23 @@ def dense_norm_overlap_trace(mk, geom):
     for a, b in zip(want.reshape(-1), w2.reshape(-1)):
         ov2 = ov2 + a * b
     mk.eq("tn @ other (no conjugation)", tn @ tn2, ov2)
+    # explicit output_inds: the labels in the list are shared by ket and bra, every other label is
+    # summed independently in each layer ("the indices to mangle are those not in this list")
+    import itertools as _it
+    for n in range(len(out) + 1):
+        for S in _it.combinations(out, n):
+            rest = tuple(i for i in out if i not in S)
+            ket = ref.sum_of_products([(want, tuple(out))], tuple(S))
+            oth = ref.sum_of_products([(w2, tuple(out))], tuple(S))
+            tot_s, ov_s = 0, 0
+            for a, b in zip(np.asarray(ket, dtype=object if mk.sym else complex).reshape(-1),
+                            np.asarray(oth, dtype=object if mk.sym else complex).reshape(-1)):
+                tot_s = tot_s + a * (a.conjugate() if mk.sym else np.conj(a))
+                ov_s = ov_s + a * (b.conjugate() if mk.sym else np.conj(b))
+            mk.eq(f"norm(output_inds={S}, squared=True)", tn.norm(output_inds=S, squared=True), tot_s)
+            mk.eq(f"make_norm(output_inds={S}) contracted", tn.make_norm(output_inds=S).contract(all, output_inds=()), tot_s)
+            mk.eq(f"overlap(other, output_inds={S})", tn.overlap(tn2, output_inds=S), ov_s)
+            mk.eq(f"make_overlap(other, output_inds={S}) contracted", tn.make_overlap(tn2, output_inds=S).contract(all, output_inds=()), ov_s)
     # trace over a pair of equal-size outer labels
     pairs = [(a, b) for a in out for b in out if a < b and sizes[a] == sizes[b]]
     if pairs:
@@ -363,6 +380,30 @@ def linear_operator(mk, geom):
     mk.eq("to_dense()", op.to_dense(), M)
     mk.eq("A.H.to_dense()", op.H.to_dense(), ref.dag(M))
     mk.eq("rmatvec", op.rmatvec(u), ref.matmul(ref.dag(M), u))
+    # every word of length <= 3 over the derivations {H, T, conj}: dense form, action, trace, astype
+    import itertools as _it
+    conjM = ref.dag(M).T
+    acts = {"H": (lambda X: ref.dag(X)), "T": (lambda X: X.T), "C": (lambda X: ref.dag(X).T)}
+    gets = {"H": (lambda o: o.H), "T": (lambda o: o.T), "C": (lambda o: o.conj())}
+    for n in (1, 2, 3):
+        for word in _it.product("HTC", repeat=n):
+            o, X = op, M
+            for w in word:
+                o, X = gets[w](o), acts[w](X)
+            name = ".".join(word)
+            mk.same(f"A.{name}: shape", tuple(o.shape), tuple(X.shape))
+            mk.eq(f"A.{name}: to_dense()", o.to_dense(), X)
+            x = v if X.shape[1] == dr else u
+            y = u if X.shape[0] == dl else v
+            mk.eq(f"A.{name} @ x", o @ x, ref.matmul(X, x))
+            if n <= 2:
+                mk.eq(f"A.{name}: rmatvec", o.rmatvec(y), ref.matmul(ref.dag(X), y))
+                mk.eq(f"A.{name} @ X (matmat)", o @ (V if X.shape[1] == dr else mk.array("U2", (dl, 2), "cplx")),
+                      ref.matmul(X, V if X.shape[1] == dr else mk.array("U2", (dl, 2), "cplx")))
+                if dl == dr:
+                    mk.eq(f"A.{name}: trace()", o.trace(), ref.trace(X))
+                if not mk.sym:
+                    mk.eq(f"A.{name}: astype(complex128).to_dense()", o.astype("complex128").to_dense(), X)
 
 
 @obligation(PROP, params=[{"L": 3, "cyclic": False}, {"L": 3, "cyclic": True}, {"L": 4, "cyclic": False}])
